@@ -331,6 +331,51 @@ def plan_kwargs(cat):
     return kw
 
 
+def scribble(x, keep, depth=0, seen=None):
+    """A caller that EDITS what it got back (MindsDB rewrites returned trees and plan steps): every list reachable from a
+    result gets an extra element and loses its first one, every dict an extra key.  Only lists / dicts / tuples, AST nodes and
+    plan steps are followed; objects that belong to the caller's own catalogs (`keep`: their ids) are left alone.  On a library
+    whose results are private to the call this changes nothing for anybody else."""
+    if seen is None:
+        seen = set()
+    if id(x) in seen or id(x) in keep or depth > 60:
+        return
+    seen.add(id(x))
+    if isinstance(x, list):
+        for i in list(x):
+            scribble(i, keep, depth + 1, seen)
+        if x:
+            x.pop(0)
+        x.append('scribbled')
+    elif isinstance(x, dict):
+        for v in list(x.values()):
+            scribble(v, keep, depth + 1, seen)
+        x['scribbled'] = True
+    elif isinstance(x, tuple):
+        for i in x:
+            scribble(i, keep, depth + 1, seen)
+    else:
+        mod = type(x).__module__ or ''
+        if mod.startswith('mindsdb_sql.') and hasattr(x, '__dict__'):
+            for v in list(vars(x).values()):
+                scribble(v, keep, depth + 1, seen)
+
+
+def _ids_of(x, out, depth=0):
+    """ids of the containers reachable from an object the CALLER owns (a catalog, the tree it passed in): editing those is the
+    caller's own business, so a result that merely aliases them is not scribbled on."""
+    if id(x) in out or depth > 60:
+        return
+    if isinstance(x, (list, dict, tuple)):
+        out.add(id(x))
+        for v in (x.values() if isinstance(x, dict) else x):
+            _ids_of(v, out, depth + 1)
+    elif (type(x).__module__ or '').startswith('mindsdb_sql.') and hasattr(x, '__dict__'):
+        out.add(id(x))
+        for v in list(vars(x).values()):
+            _ids_of(v, out, depth + 1)
+
+
 def run_op(op, env):
     """Execute one op against the real library and return its observable.  BaseExceptions that are
     not Exception (SimAbort, KeyboardInterrupt, SystemExit) propagate to the client loop."""
@@ -338,13 +383,23 @@ def run_op(op, env):
     try:
         if k == 'parse':
             from mindsdb_sql import parse_sql
-            return dump_ast(parse_sql(op['sql'], dialect=op['d']))
+            tree = parse_sql(op['sql'], dialect=op['d'])
+            obs = dump_ast(tree)
+            if getattr(env, 'scribble', False):
+                scribble(tree, set())
+            return obs
         if k == 'plan':
             from mindsdb_sql import parse_sql
             from mindsdb_sql.planner import plan_query
             ast = build_tree(op['ast']) if op.get('ast') else parse_sql(op['sql'], dialect=op.get('d', 'mindsdb'))
-            plan = plan_query(ast, **plan_kwargs(env.catalog(op.get('cat'))))
-            return 'ok: ' + dump_steps(plan.steps)
+            cat_ = env.catalog(op.get('cat'))
+            plan = plan_query(ast, **plan_kwargs(cat_))
+            obs = 'ok: ' + dump_steps(plan.steps)
+            if getattr(env, 'scribble', False):
+                keep = set()
+                _ids_of(cat_, keep)
+                scribble(plan.steps, keep)
+            return obs
         if k == 'render':
             from mindsdb_sql import parse_sql
             shared_tree = env.shared_tree(op)
@@ -355,7 +410,12 @@ def run_op(op, env):
             r = env.renderer(op['rd'])
             if op.get('wp'):
                 sql, params = r.get_exec_params(ast, with_failback=op.get('fb', True), with_params=True)
-                return norm_text('ok: %s\nparams: %s' % (sql, dump_value(params)))
+                obs = norm_text('ok: %s\nparams: %s' % (sql, dump_value(params)))
+                if getattr(env, 'scribble', False) and isinstance(params, (list, dict)):
+                    keep = set()
+                    _ids_of(ast, keep)       # (the pinned tree hands back the rows of the caller's own plain-insert tree)
+                    scribble(params, keep)
+                return obs
             return norm_text('ok: ' + r.get_string(ast, with_failback=op.get('fb', True)))
         if k == 'flow':
             return _flow(op, env)
